@@ -495,10 +495,14 @@ def plan_C14(ctx):
 C10_DIM = {3: 2, 5: 3, 7: 4}
 
 
-def mcobj_cfg(order, maxops, emit, broken="none", sizes="{1, 2, 3}"):
+ALL_KINDS = '{"energy", "egrad", "epartial", "prop", "eval", "state", "knots"}'
+ALL_HOWS = '{"ctor_durs", "ctor_pts", "upd_durs", "upd_pts"}'
+
+
+def mcobj_cfg(order, maxops, emit, broken="none", sizes="{1, 2, 3}", kinds=ALL_KINDS, hows=ALL_HOWS):
     return ("SPECIFICATION Spec\nCONSTANTS\n  Ids = {1, 2}\n  Sizes = %s\n  Variants = {1, 2}\n  Order = %d\n  MaxOps = %d\n"
-            "  Emit = %s\n  Broken = \"%s\"\nINVARIANT Inv\nCONSTRAINT EmitScripts\nVIEW View\nCHECK_DEADLOCK FALSE\n"
-            % (sizes, order, maxops, "TRUE" if emit else "FALSE", broken))
+            "  Emit = %s\n  Broken = \"%s\"\n  KindSet = %s\n  HowSet = %s\nINVARIANT Inv\nCONSTRAINT EmitScripts\nVIEW View\nCHECK_DEADLOCK FALSE\n"
+            % (sizes, order, maxops, "TRUE" if emit else "FALSE", broken, kinds, hows))
 
 
 def run_mc_text(ctx, module, cfg_text, name, **kw):
@@ -573,6 +577,20 @@ def query_cmds(tab, order, oid, nv, kinds):
     return out
 
 
+def spline_lifeline(h):
+    """what the object touched by the last action went through: sizes, queries in between, copies/assignments (with the donor's line)"""
+    line = {}
+    for a in h:
+        if a["op"] == "build":
+            line[a["obj"]] = line.get(a["obj"], "") + "%s%d" % ("U" if a["how"].startswith("upd") else "B", a["n"])
+        elif a["op"] in ("copy", "assign"):
+            line[a["dst"]] = (line.get(a["dst"], "") if a["op"] == "assign" else "") + "<%s>" % line.get(a["src"], "")
+        else:
+            line[a["obj"]] = line.get(a["obj"], "") + a["op"][0]
+    last = h[-1]
+    return line.get(last.get("dst", last.get("obj")), "")
+
+
 def plan_C10(ctx):
     selftest_rat(ctx)
     depth = 3 if ctx.quick() else 4
@@ -598,6 +616,17 @@ def plan_C10(ctx):
             hs = groups[g]
             r.shuffle(hs)
             chosen += hs[:per]
+        # deeper histories over a narrow alphabet (sizes 1 and 3, evaluation and propagation, two overloads): sampled evenly over the
+        # life line of the object touched last (sizes it went through, what was queried in between, copies/assignments received)
+        dgroups = {}
+        for h in tlc_generate_spline(ctx, order, deep=True):
+            if len(h) >= 4:
+                dgroups.setdefault((h[-1]["op"], spline_lifeline(h)), []).append(h)
+        dper = max(1, (nsample // 2) // max(1, len(dgroups)))
+        for g in sorted(dgroups):
+            hs = dgroups[g]
+            r.shuffle(hs)
+            chosen += hs[:dper]
         for h in chosen:
             cmds = expand_spline_script(tab, order, h)
             execs.append((len(cmds) * (order + 1), cmds))
@@ -646,14 +675,17 @@ def plan_C10(ctx):
                   props_judged={"C10", "C05", "C11", "C12"})
 
 
-def tlc_generate_spline(ctx, order):
+def tlc_generate_spline(ctx, order, deep=False):
+    """wide alphabet: histories of up to 3 calls; deep: narrow alphabet (two sizes, two queries, two overloads), up to 5 calls"""
     from vcheck import tlc_generate
     mo = 5 if order == 7 else order
-    key = "gen_o%d" % mo
+    key = "gen_o%d%s" % (mo, "_deep" if deep else "")
     if not hasattr(ctx, "_gen"):
         ctx._gen = {}
     if key not in ctx._gen:
-        ctx._gen[key] = tlc_generate(ctx, "MCSplineObj", mcobj_cfg(mo, 3, True), "splineobj_o%d" % mo, workers=1)   # histories of up to 3 calls
+        cfg = (mcobj_cfg(mo, 5, True, sizes="{1, 3}", kinds='{"eval", "prop"}', hows='{"ctor_durs", "upd_pts"}') if deep
+               else mcobj_cfg(mo, 3, True))
+        ctx._gen[key] = tlc_generate(ctx, "MCSplineObj", cfg, "splineobj_o%d%s" % (mo, "_deep" if deep else ""), workers=1)
     return ctx._gen[key]
 
 
@@ -981,7 +1013,7 @@ def plan_C11(ctx):
                 elif (a["op"] == "build" and a["obj"] in seen) or (a["op"] == "assign" and a["dst"] in seen):
                     return True
             return False
-        allh = [h for h in tlc_generate_spline(ctx, order) if relevant(h)]
+        allh = [h for h in tlc_generate_spline(ctx, order) + tlc_generate_spline(ctx, order, deep=True) if relevant(h)]
         r.shuffle(allh)
         byb = [h for h in allh if h[-1]["op"] == "build"]
         bya = [h for h in allh if h[-1]["op"] == "assign"]
